@@ -7,12 +7,17 @@ CLAIMS["C10"] = dict(
          "constructors on a growing family of contexts; after EVERY operation every context still held is re-queried (GetValue, HasKey, "
          "RuntimeContext::GetValue) over 6 keys (incl. prefixes of one another, the empty key and absent keys, in exact-size heap blocks under ASan) and "
          "compared with its own model map; key buffers are scribbled and maps cleared after each call (the context must own its data). (b) Runtime stack: "
-         "every history of depth 6 (quick) / 9 (thorough, crossing the stack's reallocations at pushes 1, 3 and 7) over Attach(empty / A / B, also "
+         "every full-alphabet history of depth 6 (quick) / 9 (thorough, crossing the stack's reallocations at pushes 1, 3 and 7) over Attach(empty / A / B, also "
          "repeatedly), Detach through any live token (out of order, already detached, foreign), token destruction, trace::Scope push and pop of any live "
          "scope, against a vector-of-identities model (detach = pop through the most recent frame with the token's identity, else no change); after every "
          "operation RuntimeContext::GetCurrent(), the values visible through it and Tracer::GetCurrentSpan() must equal the model's top frame; Detach's "
          "return value is checked where the statement fixes it; after all tokens died no frame may remain. (c) Two threads run one after the other "
-         "while the main thread holds frames: each sees only its own stack.",
+         "while the main thread holds frames: each sees only its own stack. (d) Deep stacks (shaped, not full-alphabet): for every N in {1..16, 31, 33, 65} "
+         "(thorough {1..34, 62..65, 126..128}; the storage grows at pushes 1, 3, 7, 15, 31, 63, 127) x {N distinct contexts, every 3rd attach re-attaches an "
+         "earlier context, N nested trace::Scope} x {Detach(token) with the token kept alive, destruction} x unwind plan {newest first; the token of attach "
+         "1, N/4, N/2 or N-1 out of order and then newest first (stale tokens included); pop newest-first down to depth N/4+1, N/4, N/4-1, 1 or 0, attach "
+         "again up to N, unwind}: GetCurrent(), the visible values, GetCurrentSpan() and Detach's return value are compared with the model after EVERY "
+         "attach and EVERY detach, and no frame may remain at the end; states are counted on the real Stack (size_, capacity_, frames).",
     note=SEQ_NOTE + " Tokens with the same context are interchangeable (a Token holds only its const Context), so Detach / ~Token choose an identity, not a "
          "token index (symmetry reduction). Don't-care: the return value of Detach for an empty-context token when no empty frame is attached; HasKey "
          "for a key bound to monostate (not generated). Interleaved multi-thread use is explored by the interleaving-engine harness registered for the same property (conc_c10); part (c) here is sequential.")
